@@ -213,3 +213,9 @@ def receiver_replenishes(max_credits: int, frames: int) -> bool:
 
 
 _flags.int_format_placeholder = True     # log f-strings with symbolic ints are not the subject here (see vf/flags.py)
+
+
+def e2_obligations(tier):
+    """wide-range verification conditions over the AST of the real source (vf/e2.py, vf/e2k.py)"""
+    from vf import e2k
+    return [e2k.coc_segment_iteration(), e2k.coc_on_pdu()]
